@@ -36,6 +36,10 @@ ALT = (0.6, 0.7)
 
 def make_corr(kind, p):
     a, t = p
+    if kind == "PowerLawSD@Z":      # world Z: the first parameter is the exponent zeta (alpha fixed)
+        return oq.PowerLawSD(alpha=0.3, zeta=a, cutoff=3.0, cutoff_type="exponential", temperature=t)
+    if kind == "CustomSD@Z":        # world Z: the first parameter is the cutoff frequency (J fixed)
+        return oq.CustomSD(lambda w: 0.6 * w, cutoff=a, cutoff_type="gaussian", temperature=t)
     if kind == "PowerLawSD":
         return oq.PowerLawSD(alpha=a, zeta=1.0, cutoff=3.0, cutoff_type="exponential", temperature=t)
     if kind == "CustomSD":
@@ -48,7 +52,15 @@ def make_corr(kind, p):
 def set_attr(kind, obj, which, p):
     """Set the public attribute to the value of parameter tuple p. Returns new param tuple."""
     a, t = p
-    if kind == "PowerLawSD":
+    if kind in ("PowerLawSD@Z", "CustomSD@Z"):
+        if which == "S1":
+            if kind == "PowerLawSD@Z":
+                obj.zeta = a
+            else:
+                obj.cutoff = a
+        else:
+            obj.temperature = t
+    elif kind == "PowerLawSD":
         if which == "S1":
             obj.alpha = a
         else:
@@ -80,16 +92,20 @@ def run_tempo(bath):
 # (the default) and later heated, object B is built hot and later set to zero temperature -- zero temperature selects
 # different integrands inside the correlations classes.
 WORLDS = {"": (P_A, P_B, ALT, ALT),
-          "@T0": ((0.3, 0.0), (0.15, 0.9), (0.6, 0.7), (0.6, 0.0))}
+          "@T0": ((0.3, 0.0), (0.15, 0.9), (0.6, 0.7), (0.6, 0.0)),
+          # world Z: S1 changes the exponent zeta (PowerLawSD: 1 <-> 3, 0.5 <-> 3) / the cutoff frequency (CustomSD)
+          "@Z": ((1.0, 0.2), (0.5, 0.9), (3.0, 0.7), (3.0, 0.7))}
 
 
 def split_kind(kindw):
+    """-> (kind used for construction and reference keys, kind named in violation classes, world parameters)"""
     kind, _, w = kindw.partition("@")
-    return kind, WORLDS["@" + w if w else ""]
+    return (kindw if w == "Z" else kind), kind, WORLDS["@" + w if w else ""]
 
 
 _REFC = {}
 ALL_PARAMS = sorted(set((a, t) for a in (P_A[0], P_B[0], ALT[0]) for t in (P_A[1], P_B[1], ALT[1], 0.0)))
+Z_PARAMS = sorted(set((a, t) for a in (1.0, 0.5, 3.0) for t in (0.2, 0.9, 0.7)))
 
 
 def _fresh_reference(key):
@@ -103,7 +119,7 @@ def _fresh_reference(key):
 
 def precompute_references(kinds):
     import multiprocessing as mp
-    keys = [(w, k, p) for w in ("E", "T") for k in kinds for p in ALL_PARAMS]
+    keys = [(w, k, p) for w in ("E", "T") for k in kinds for p in (Z_PARAMS if k.endswith("@Z") else ALL_PARAMS)]
     keys = [k for k in keys if k not in _REFC]
     if not keys:
         return
@@ -137,7 +153,8 @@ def classify(kind, obs, op, cur_p, candidates, ref_fn):
 
 def history_case(args):
     kindw, hist = args
-    kind, (P_A, P_B, ALT_A, ALT_B) = split_kind(kindw)
+    kind, cname, (P_A, P_B, ALT_A, ALT_B) = split_kind(kindw)
+    s1name = "S3" if kindw.endswith("@Z") else "S1"
     objs = {"A": make_corr(kind, P_A), "B": None}
     params = {"A": P_A, "B": P_B}
     first_eval = {"A": None, "B": None}      # params at the time of the first 2D-integral evaluation (cache fill)
@@ -166,7 +183,7 @@ def history_case(args):
                 if kind == "CustomCorrelations":
                     pass
                 params[cur] = newp
-                sets[cur].append(op)
+                sets[cur].append(s1name if op == "S1" else op)
                 obs = None
             elif op == "E":
                 obs = eval_corr(objs[cur])
@@ -186,7 +203,7 @@ def history_case(args):
                             if p is not None and p != params[cur] and np.abs(obs[1:] - ref_eval(kind, p)[1:]).max() < 1e-6:
                                 lab = f"2d-integrals-have-{n}"
                                 break
-                    vio.append((f"{kind}|eval-after-{'+'.join(sorted(set(sets[cur]))) or 'switch'}|{lab}",
+                    vio.append((f"{cname}|eval-after-{'+'.join(sorted(set(sets[cur]))) or 'switch'}|{lab}",
                                 f"history {hist}: op {i}: {which} differ from a fresh object with the current values {params[cur]}"))
                 if first_eval[cur] is None:
                     first_eval[cur] = params[cur]
@@ -213,10 +230,10 @@ def history_case(args):
                         lab = "partly-follows-later-changes-of-the-source-object" if later else "other-values"
                     else:
                         lab = "partly-follows-later-changes-of-the-source-object" if later else "other-values"
-                    vio.append((f"{kind}|bath-built-before-{'+'.join(sorted(set(later))) or 'nothing'}|{'read' if op == 'R' else 'tempo'}|{lab}",
+                    vio.append((f"{cname}|bath-built-before-{'+'.join(sorted(set(later))) or 'nothing'}|{'read' if op == 'R' else 'tempo'}|{lab}",
                                 f"history {hist}: op {i}: bath built with {bath['p']} answers differently from a fresh bath with those values"))
         except Exception as ex:  # noqa
-            vio.append((f"{kind}|{op}|exception:{type(ex).__name__}", f"history {hist} op {i}: {ex}"[:200]))
+            vio.append((f"{cname}|{op}|exception:{type(ex).__name__}", f"history {hist} op {i}: {ex}"[:200]))
             break
         nops += 1
         trail.append(None if obs is None else hashlib.sha1(np.round(obs, 8).tobytes()).hexdigest()[:6])
@@ -827,7 +844,16 @@ def run(tier, seed):
                 if h[0] in ("R", "T") or h[-1] in ("S1", "S2", "X", "B"):
                     continue
                 jobs.append((kind, h))
-    precompute_references(kinds)       # before the worker pool is forked: workers inherit the pristine references
+    # world Z (S1 = exponent zeta / cutoff frequency instead of the coupling strength): one level shallower
+    for kind in ("PowerLawSD@Z", "CustomSD@Z"):
+        for L in range(1, depth):
+            for h in itertools.product(OPS, repeat=L):
+                if not any(o in ("E", "R", "T") for o in h) or "S1" not in h:
+                    continue
+                if h[0] in ("R", "T") or h[-1] in ("S1", "S2", "X", "B"):
+                    continue
+                jobs.append((kind, h))
+    precompute_references(kinds + ["PowerLawSD@Z", "CustomSD@Z"])       # before the worker pool is forked: workers inherit the pristine references
     res = pmap(history_case, jobs, seed=seed)
     states, trans = set(), 0
     for (kind, h), r in zip(jobs, res):
